@@ -511,6 +511,67 @@ def w_l2(ctx: core.Ctx, arg):
             ctx.sample({'sub': 'l2', **info, 'verdict': verdict, 'response_head': res.out[:160]})
         if case % 3 == 0:
             _keepalive_case(ctx, rng, reg, echo, enabled, cs_out, registered)
+        if case % 4 == 1:
+            _rejected_then_next(ctx, rng, enabled, cs_out, registered)
+
+
+def _rejected_then_next(ctx, rng, enabled, cs_out, registered):
+    """request 1 carries a body in an unsupported or corrupt coding (the body itself looks like an HTTP request), request 2 on the same
+    connection is valid: 1 is rejected, and its body is never interpreted - neither as payload nor as a further request."""
+    from sdc11073.dispatch import PathElementRegistry
+    from sdc11073.httpserver.compression import CompressionHandler
+    echo = Echo()
+    reg = PathElementRegistry()
+    reg.register_instance('echo', echo)
+    srv = L.FakeServer(reg, cs_out, list(enabled))
+    smuggled = L.mk_request('POST', '/echo', [('Host', 'x'), ('Content-Length', '7')], b'SMUGGLE')
+    kind = rng.choice(['unsupported', 'unsupported', 'unsupported_case', 'corrupt', 'two_codings'])
+    if kind == 'corrupt':
+        coding = rng.choice(registered)
+        bad = bytearray(CompressionHandler.compress_payload(coding, smuggled * 3))
+        bad[len(bad) // 2] ^= 0xFF
+        bad = bytes(bad[:-3]) + smuggled
+    else:
+        coding = {'unsupported': rng.choice(['br', 'deflate', 'zstd', 'compress']), 'unsupported_case': 'GZIP-2',
+                  'two_codings': 'gzip, br'}[kind]
+        bad = smuggled
+    chunked = rng.random() < 0.3
+    hdrs = [('Host', 'x'), ('Content-Encoding', coding)]
+    if chunked:
+        hdrs.append(('Transfer-Encoding', 'chunked'))
+        wire = L.ref_chunk(bad, [rng.randrange(5, 60)])
+    else:
+        hdrs.append(('Content-Length', str(len(bad))))
+        wire = bad
+    body2, _ = gen_body(rng, rng.randrange(1, 500))
+    raw = L.mk_request('POST', '/echo', hdrs, wire) + L.mk_request('POST', '/echo', [('Host', 'x'), ('Content-Length', str(len(body2)))], body2)
+    res = L.feed(srv, raw, methods=['POST', 'POST', 'POST', 'POST'])
+    ctx.count(f'reject_then_next.{kind}')
+    info = {'kind': kind, 'content_encoding': coding, 'chunked': chunked, 'enabled': list(enabled)}
+    if res.escaped is not None or res.spin is not None:
+        ctx.witness('l2.rejected_request_failed', 'a request in an unsupported / corrupt coding made the handler fail',
+                    {**info, 'escaped': repr(res.escaped), 'spin': res.spin, 'tb': res.escaped_tb})
+        return
+    statuses = [p.status for p in res.responses]
+    if not res.responses or res.responses[0].status is None or res.responses[0].status < 400:
+        if any(b'SMUGGLE' in (x or b'') for x in echo.seen) or echo.seen[:1] == [bad]:
+            ctx.witness('coding.unsupported_accepted', f'a body in Content-Encoding {coding!r} was handed to the component', {**info, 'statuses': statuses})
+        return
+    ctx.count('reject_then_next.rejected')
+    smuggled_seen = [x for x in echo.seen if x is not None and b'SMUGGLE' in x] + [x for x in echo.seen if x != body2]
+    if smuggled_seen or len(res.responses) > 2:
+        ctx.witness('coding.rejected_body_interpreted', 'the body of a request that was rejected for its content coding was interpreted afterwards '
+                    '(as payload or as a further request on the connection)', {**info, 'statuses': statuses,
+                                                                               'component_saw': [x[:40] for x in echo.seen if x is not None]})
+        return
+    if len(res.responses) == 2:
+        ctx.count('reject_then_next.second_request_served')
+        p = res.responses[1]
+        if p.status != 200 or echo.seen != [body2]:
+            ctx.witness('roundtrip.l2_request_after_rejected', 'the valid request after a rejected one was not served with its own body',
+                        {**info, 'statuses': statuses, 'seen': [None if x is None else len(x) for x in echo.seen]})
+    else:
+        ctx.count('reject_then_next.connection_closed')
 
 
 def _keepalive_case(ctx, rng, reg, echo, enabled, cs_out, registered):
